@@ -332,6 +332,14 @@ inline void prepare_crash_record(const World& w, const Plan& p, uint64_t rs, uin
   g_crash_len = n > 0 && (size_t)n < sizeof g_crash_buf ? (size_t)n : 0;
 }
 
+// A world that executes library code while it generates a plan (a dry execution to size the fault space) announces the
+// part of the plan that execution depends on first: should the process die there, this is the plan that is kept.
+inline uint64_t g_gen_rs = 0, g_gen_idx = 0;
+inline void provisional_crash_record(const World& w, const Plan& p)
+{
+  prepare_crash_record(w, p, g_gen_rs, g_gen_idx);
+}
+
 // Minimal parser for the files written by plan_json / write_replay.
 struct JParse
 {
@@ -1132,6 +1140,9 @@ inline int sim_main(World& w, int argc, char** argv)
       break;
     uint64_t rs = mix2(seed, start + i);
     Rng r(rs);
+    g_gen_rs = rs;
+    g_gen_idx = start + i;
+    g_crash_len = 0;
     Plan p = w.generate(r, thorough);
     handle(p, start + i, rs, "rand");
     done_rand++;
